@@ -26,7 +26,7 @@ Options ==
     extratype |-> {"file"}, bufsize |-> {"file"}, yydecl |-> {"file"}, yyterminate |-> {"file"}, preaction |-> {"file"}, preaction_bol |-> {"file"},
     postaction |-> {"file"}, userinit |-> {"file"}, noyyalloc |-> {"file"}, noyyread |-> {"file"}, nofunction |-> {"file"},
     noinput |-> {"file"}, yyclass |-> {"cli", "file"}, tablesfile |-> {"cli", "file"}, lexcompat |-> {"cli", "file"},
-    posixcompat |-> {"cli", "file"}, prefix_tablesfile |-> {"cli", "file"},
+    posixcompat |-> {"cli", "file"}, prefix_tablesfile |-> {"cli", "file"}, nodefault_cxx |-> {"cli", "file"},
     \* character-set size and table representation, and the documented defaults of their combinations
     8bit |-> {"cli", "file"}, 7bit |-> {"cli", "file"}, default_8bit |-> {"cli"}, default_full_7bit |-> {"cli", "file"},
     default_fast_7bit |-> {"cli", "file"}, default_fullecs_8bit |-> {"cli", "file"}, default_fastecs_8bit |-> {"cli", "file"},
